@@ -2518,9 +2518,10 @@ fn family_s(run: &Run, shv: &Shared) {
 /// out of the tree / a Pages node with a page of its own / a plain dictionary, referenced from the
 /// catalog (OpenAction, so reachable) or from nowhere; the number of the first / last page of the
 /// tree, of the root, of the catalog under the other generation
-const MAL_D: [&str; 12] = [
+/// - and kids that are no dangling references but lead to no page either: an integer, null, the catalog, a live plain dictionary
+const MAL_D: [&str; 16] = [
     "unused_far", "unused_in_range", "x_page_reach", "x_page_unreach", "x_pages_reach", "x_pages_unreach", "x_other_reach", "x_other_unreach", "first_page_gen", "last_page_gen", "root_gen",
-    "cat_gen",
+    "cat_gen", "int", "null", "ref_cat", "x_other_live",
 ];
 /// flavours of the Kids entry of the Pages node N
 const MAL_N: [&str; 10] = ["missing", "dangling", "int", "dict", "empty", "name", "null", "ref_int", "ref_dict", "ref_stale_gen"];
@@ -2595,7 +2596,9 @@ fn build_mal(spec: &MalSpec, ids: &[ObjectId], start: u32) -> MalDoc {
     let used: BTreeSet<u32> = ids.iter().map(|i| i.0).collect();
     let far = (used.iter().next_back().unwrap().max(&(start + ids.len() as u32)) + 11, 0u16);
     let dkid: Option<ObjectId> = match spec.d.as_str() {
-        "" => None,
+        "" | "int" | "null" => None,
+        "ref_cat" => Some(id("cat")),
+        "x_other_live" => Some(id("x")),
         "unused_far" => Some(far),
         "unused_in_range" => Some((start..start + ids.len() as u32).find(|x| !used.contains(x)).map(|x| (x, 0)).unwrap_or(far)),
         "first_page_gen" => Some(other_gen(pages[0])),
@@ -2621,7 +2624,11 @@ fn build_mal(spec: &MalSpec, ids: &[ObjectId], start: u32) -> MalDoc {
                 kids.push(rf(pages[next_page]));
                 next_page += 1;
             }
-            'D' => kids.push(rf(dkid.expect("D without a flavour"))),
+            'D' => kids.push(match spec.d.as_str() {
+                "int" => Object::Integer(5),
+                "null" => Object::Null,
+                _ => rf(dkid.expect("D without a flavour")),
+            }),
             'N' => kids.push(rf(id("n"))),
             _ => unreachable!(),
         }
